@@ -77,6 +77,10 @@ NEAR_VALID = [
     ['if nx():', '    function fq():', '        while nx():', '            if nx():', '                break', '            endif', '        endwhile', '    endfunction', 'endif'],
     ['while nx():', '    if nx():', '        function fq():', '            if nx():', '                continue', '            endif', '        endfunction', '    endif', 'endwhile'],
     ['function fq():', '    while nx():', '        fr = 1', '    endwhile', 'endfunction', 'while nx():', '    fq()', 'endwhile'],
+    # block headers whose expression is ill-formed: rejected, or - if a model comes back - a model that satisfies the schema
+    ['if (nx() +:', '    fr = 1', 'endif'], ['while nx() nx():', '    fr = 1', 'endwhile'], ['for xx in (arrayNew(1):', '    fr = xx', 'endfor'],
+    ['if nx():', '    fr = 1', 'elif nx() +:', '    fr = 2', 'endif'], ['function fq():', '    while 1 +:', '        break', '    endwhile', 'endfunction'],
+    ['for xx in arrayNew(1) extra:', 'endfor'], ['if :', 'endif'], ['while !:', 'endwhile'],
 ]
 
 
@@ -101,9 +105,11 @@ def run_watch(prog, acc, api, kind):
     text = '\n'.join(pp(prog))
     if kind == 'shape':
         text = layout.respell(text, random.Random(len(text)), 0.5)
-    for pat in ([1, 0, 1, 1, 0, 0, 1, 0], [0, 1, 0, 0, 1, 1, 0, 1]):
+    for pat in ([1, 0, 1, 1, 0, 0, 1, 0], [0, 1, 0, 0, 1, 1, 0, 1], [1, 1, 0, 1, 0, 0, 0, 1]):
         try:
-            bare_script.execute_script(bare_script.parse_script(text), {'globals': {'nx': gen_prog.make_nx(pat)}, 'maxStatements': 3000, 'logFn': None})
+            # (the third run is a debug-mode run with a log function: the same jumps, the same labels)
+            bare_script.execute_script(bare_script.parse_script(text), {'globals': {'nx': gen_prog.make_nx(pat)}, 'maxStatements': 3000,
+                                                                         'logFn': (lambda m: None) if pat[1] == 1 and pat[0] == 1 else None, 'debug': pat[1] == 1 and pat[0] == 1})
         except Exception as exc:  # pylint: disable=broad-except
             if 'Unknown jump label' in str(exc):
                 acc.violation('unknown-jump-label-at-run-time', f'{exc}\n{text}', {'text': text})
